@@ -1,5 +1,22 @@
 // Unit c02_force_write -- property C02 "Failed, rejected and aborted transactions change nothing but fees"
-// WHO may request FORCE_WRITE (the only thing that survives the revert of a failed transaction).
+// WHO may request FORCE_WRITE -- the lock flag / event flag that makes a substate / an event survive the revert of a failed
+// transaction (units c02_result_type: revert + event drop guard; c12_track: Track::force_write). Four layers, bodies verbatim:
+//  unit::sys   radix-engine/src/system/system.rs (SystemService against a ghost kernel, env adapted from c50_encapsulation / c51_locked_state):
+//              actor_open_field + its whole resolution stack (get_actor_field_info, get_actor_info, get_actor_object_id, get_blueprint_info,
+//              get_object_info, get_outer_object, is_feature_enabled, current_actor, TryFrom<ActorStateHandle>), actor_open_key_value_entry,
+//              key_value_store_open_entry, actor_get_blueprint_id, actor_emit_event, emit_event_internal, get_actor_type_target,
+//              SystemCostingApi::{lock_fee, start_lock_fee}; radix-engine/src/system/actor.rs Actor::{get_object_id, blueprint_id, node_id},
+//              MethodActor::get_blueprint_id, MethodType::module_id; object_api.rs static_blueprint, ModuleId conversions; two sliced guards.
+//              Method "sensitive callee": the env kernel_open_substate(_with_default) REQUIRES `special flag ==> field of a fungible-vault
+//              object`; emit_event_internal REQUIRES `FORCE_WRITE event ==> the fungible vault blueprint is running`.
+//  unit::io    radix-engine/src/kernel/substate_io.rs SubstateIO::{open_substate (tail cut), close_substate}: flags stored verbatim,
+//              UNMODIFIED_BASE refused on heap / New / Updated, force_write invoked IFF the handle was opened with FORCE_WRITE.
+//  unit::vault radix-engine/src/blueprints/resource/fungible/fungible_vault.rs FungibleVaultBlueprint::lock_fee (+ get_divisibility,
+//              assert_not_frozen, check_fungible_amount, LiquidFungibleResource::{new, take_by_amount}) against a ghost-heap SystemApi
+//              whose actor_open_field REQUIRES `FORCE_WRITE ==> liquid balance of an XRD vault`.
+//  unit::compose  a failed transaction whose opens all met the sensitive-callee precondition keeps updates only on fields of
+//              fungible-vault objects (hypothesis `reverted` = postcondition of c02_result_type's revert).
+// Scope, assumptions and what is NOT covered: props.frag.json.
 use vstd::prelude::*;
 /// radix-rust `indexset!()` (only the empty form is used by the code under contract)
 macro_rules! indexset { () => { index_set_new() }; }
